@@ -25,8 +25,8 @@ pub fn prop() -> Prop {
         id: "C16",
         level: "exploration",
         runs: |t| match t {
-            Tier::Quick => 360,
-            Tier::Thorough => 5000,
+            Tier::Quick => 3600,
+            Tier::Thorough => 40000,
         },
         generate,
         exec,
